@@ -1,0 +1,22 @@
+//go:build verif
+// +build verif
+
+package fp
+
+// Verification hooks (built only with -tags verif): stage-wise access to the float parser.
+
+func VerifReadFloat(data []byte) (mantissa uint64, exp int, neg, trunc bool, p int, ok bool) {
+	return readFloat(data)
+}
+func VerifAtof64exact(m uint64, e int, neg bool) (float64, bool)   { return atof64exact(m, e, neg) }
+func VerifEiselLemire64(m uint64, e int, neg bool) (float64, bool) { return eiselLemire64(m, e, neg) }
+
+// VerifDecimal runs the slow path (decimal.set + floatBits) on a complete literal.
+func VerifDecimal(data []byte) (bits uint64, overflow, ok bool) {
+	var d decimal
+	if !d.set(data) {
+		return 0, false, false
+	}
+	b, ovf := d.floatBits()
+	return b, ovf, true
+}
